@@ -8392,7 +8392,17 @@ func (e *BinaryExpr) RenderBytes(buf *bytes.Buffer, posmap BufPositionsMap) *byt
 
 	_ = e.LHS.RenderBytes(buf, posmap)
 	_, _ = fmt.Fprintf(buf, " %s ", e.Op.String())
-	_ = e.RHS.RenderBytes(buf, posmap)
+	// Binary operators are left-associative when the text is parsed again. A right operand that
+	// is a binary expression of the same precedence without a ParenExpr node (the parsers build
+	// "-x" as -1 * x) therefore needs parentheses, or "a / -x" comes back as (a / -1) * x.
+	if rhs, ok := e.RHS.(*BinaryExpr); ok && rhs != nil && rhs.Op.Precedence() == e.Op.Precedence() &&
+		!(rhs.Op == e.Op && (e.Op == AND || e.Op == OR)) {
+		_, _ = buf.WriteString("(")
+		_ = e.RHS.RenderBytes(buf, posmap)
+		_, _ = buf.WriteString(")")
+	} else {
+		_ = e.RHS.RenderBytes(buf, posmap)
+	}
 
 	if posmap != nil {
 		posmap[e] = Position{Begin: Begin, End: buf.Len()}
